@@ -69,7 +69,7 @@ package store
 //@   let length, lerr := call[varint.ReadUvarint#0]
 //@   let n, c, cerr := call[cid.CidFromReader#0]
 //@   call[carv1.HeaderSize#0] assume canonical_header: rawlen(arg0) == enclen(arg0)
-//@   effects require validated [C12]: herr == nil && matches && (v1 || cur(headerInFile).DataOffset == 0 || (cur(headerInFile).DataOffset == dataOffset && cur(headerInFile).DataSize != 0))
+//@   effects require validated [C06,C12]: herr == nil && matches && (v1 || cur(headerInFile).DataOffset == 0 || (cur(headerInFile).DataOffset == dataOffset && cur(headerInFile).DataSize != 0))
 //@   call[CarHeader.Matches#0] assert roots [C12]: arg1.Version == 1 && arg1.Roots == roots
 //@   call[iface.Truncate#0] assert size [C12]: arg1 == wrap_s64(wrap_u64(cur(headerInFile).DataOffset + cur(headerInFile).DataSize))
 //@   call[Header.WriteTo#0] assert zero_header [C06,C12]: arg0.DataOffset == 0 && arg0.DataSize == 0 && arg0.IndexOffset == 0 && arg0.Characteristics.Hi == 0 && arg0.Characteristics.Lo == 0 && wn(arg1) == 11
